@@ -7,7 +7,7 @@ dst = "/verif/seeded/%s" % name
 os.makedirs(dst, exist_ok=True)
 for f in ("patch.diff", "demo.diff", "README.md"):
     shutil.copy(os.path.join(src, f), os.path.join(dst, f))
-meta = {"property": prop.rstrip("b"), "needs_to_manifest": needs,
+meta = {"property": prop[:3], "needs_to_manifest": needs,
         "confirmed": "tools/seedtest.sh %s: in a scratch worktree of /repo the demonstration (demo.diff) passes on the original code and fails with patch.diff; the 30 original tests pass with patch.diff" % prop,
         "ran": "git -C /repo apply patch.diff; ./check <ids> --tier quick; git -C /repo checkout -- .",
         "detected_by": detected}
